@@ -48,6 +48,14 @@ def generate(rng, tier, idx, keep_going=False):
             lm = rng.choice([-4, -3, -2, -1, 0, 1, 2, 3]) + rng.choice([0, 0, 0.5])
         api = 'both' if top == 'Manifest' and rng.random() < 0.6 else 'lib'
         ops.append({'op': 'verify', 'sub': sub, 'last_mtime': lm, 'api': api})
+    lms = [o['last_mtime'] for o in ops if o.get('last_mtime') is not None]
+    if lms and rng.random() < 0.5:
+        # same-size tampering stamped shortly AFTER a last_mtime of the run: within the same whole second, the next
+        # second, or a microsecond later
+        for m in muts:
+            if m['m'] == 'flip' and rng.random() < 0.7:
+                m.pop('keep_mtime', None)
+                m['mt'] = int((rng.choice(lms) + rng.choice([0.000001, 0.3, 0.3, 0.45, 1.0])) * 1e9)
     return {'prop': ID, 'order_key': '%016x' % rng.getrandbits(64), 'top': top,
             'tree': g['tree'], 'manifests': g['manifests'], 'muts': muts, 'ops': ops}
 
